@@ -2,6 +2,7 @@
 //! and prints canonical observations. One sub-command per engine.
 mod ast;
 mod interp;
+mod compile;
 mod frags;
 mod lift;
 mod ext;
@@ -28,6 +29,8 @@ fn main() {
         "tables" => tables::run(&args[2..]),
         "sat" => sat::run(&args[2..]),
         "interp" => interp::run(&args[2..]),
+        "compile" => compile::run(&args[2..]),
+        "compile-one" => compile::run_one(&args[2..]),
         "frags" => frags::run(&args[2..]),
         "tap" => tap::run(&args[2..]),
         "desc" => desc::run(&args[2..]),
